@@ -51,4 +51,13 @@ OnlySupportedHetPhased(e) ==
             /\ Het(c) /\ Len(c.gt) = 2 /\ \A k \in DOMAIN c.gt : c.gt[k] \in {0, 1}
             /\ r.nalt = 1 /\ ~r.symbolic /\ ~r.dup
             /\ (e.onlysnv => r.snv)
+(* the same on the OUTPUT STATE of the selected calls: an old phase statement of the input must not survive on a call the
+   run does not (or cannot) phase - a record of an unsupported type that still says "phased" is marked phased *)
+PhasedOnlyWhereSupported(e) ==
+    \A i \in DOMAIN e.fout.recs : \A s \in DOMAIN e.fout.samples :
+        LET r == e.fout.recs[i] c == r.calls[s] IN
+        (Selected(e, r, s) /\ StatesPhase(c)) =>
+            /\ (~e.distrust => Het(c)) /\ Len(c.gt) = 2
+            /\ r.nalt = 1 /\ ~r.symbolic /\ ~r.dup
+            /\ (e.onlysnv => r.snv)
 =============================================================================
